@@ -4,7 +4,7 @@ from common import *
 
 ID = "C37"
 GEN = []
-THEOREMS = ["C37_namespace", "C37_refuted_namespace", "C37_show_hide", "C37_prefix_all", "C37_refuted_prefix_filter",
+THEOREMS = ["C37_namespace", "C37_refuted_namespace", "C37_forward_filter", "C37_show_hide",
             "C37_with_default_only", "C37_refuted_with", "C37_config_twice", "C37_builtin_guard"]
 COQ_HEADER = ("From Coq Require Import String List ZArith.\nFrom RV Require Import Model.EvModule Run.C37.\n"
               "Import ListNotations.\nLocal Open Scope string_scope.")
@@ -231,8 +231,7 @@ def coq_term(c, io):
     return f"(mkCase {input_term(c)} {impl_term(c, io)})"
 
 
-KCLASS = {0: None, 1: "known_C37_K1_namespace_raw_segment", 2: "known_C37_K2_with_not_default",
-          3: "known_C37_K3_prefix_filter_swapped"}
+KCLASS = {0: None, 1: "known_C37_K1_namespace_raw_segment", 2: "known_C37_K2_with_not_default"}
 KIND = {1: "namespace", 2: "forward-filter", 3: "with-config", 4: "builtin-guard"}
 
 
@@ -272,7 +271,7 @@ def shrink(c):
 
 LEVEL_TEXT = ("proof: the model of do_use's default namespace equals the reference namespace for every URL whose last segment has no "
               "leading underscore and no extension (refuted otherwise); ScopeRef::expose equals the reference show/hide filter for all "
-              "member sets and lists, and the prefix arm equals it when nothing is filtered (refuted with show/hide: F29); `with` "
+              "member sets, prefixes and lists (F29 fixed by 2f8ada8); `with` "
               "configuration equals the reference for every module and every configuration of !default variables (refuted for "
               "non-default/unknown names), twice-configured is an error; tied to rsass by correspondence on generated module graphs")
 LEVEL_NOTE = ("trusted: Coq kernel+vm_compute, the harness (in-memory loader), Spec/SassModule.v, probe parsing; "
